@@ -30,9 +30,11 @@ const (
 	layGoSameLine layoutKind = "go-two-literals-on-one-line"
 	laySameBase   layoutKind = "same-file-name-in-two-directories"
 	layOutside    layoutKind = "operations-outside-the-config-directory"
+	layCRLF       layoutKind = "one-graphql-crlf-line-endings"
+	layCR         layoutKind = "one-graphql-bare-cr-line-endings"
 )
 
-var allLayouts = []layoutKind{layOneFile, layPerDef, layPartition, layGoRaw, layGoRawNL, layGoInterp, layGoNested, layGoSameLine, laySameBase, layOutside}
+var allLayouts = []layoutKind{layOneFile, layPerDef, layPartition, layGoRaw, layGoRawNL, layGoInterp, layGoNested, layGoSameLine, laySameBase, layOutside, layCRLF, layCR}
 
 type placed struct {
 	File      string // relative file name
@@ -45,6 +47,15 @@ func layout(defs []gen.Def, kind layoutKind, r *proto.Rng) (map[string]string, [
 	where := make([]placed, len(defs))
 	block := func(d gen.Def) string { return d.Comment + d.Text }
 	nlines := func(s string) int { return strings.Count(s, "\n") }
+	if kind == layCRLF || kind == layCR {
+		// one .graphql file whose lines end in "\r\n" / a bare "\r" (the GraphQL lexer counts both as line ends)
+		files, where = layout(defs, layOneFile, r)
+		end := map[layoutKind]string{layCRLF: "\r\n", layCR: "\r"}[kind]
+		for k, v := range files {
+			files[k] = strings.ReplaceAll(v, "\n", end)
+		}
+		return files, where
+	}
 	switch kind {
 	case layOneFile:
 		var sb strings.Builder
